@@ -26,7 +26,6 @@ extern "C" void harness_location(void) {
   XMLPlatformUtils::fgMemoryManager = &mm;
   XMLCh href[NH + 1]; for (int i = 0; i < NH; i++) href[i] = nondet_u16(); href[NH] = 0;
   XMLCh base[NB + 1]; for (int i = 0; i < NB; i++) base[i] = nondet_u16(); base[NB] = 0;
-  VX_KNOWN(href[0] == 0);                 // known finding C20/empty-href (see known_findings.json)
   VX_ASSUME(!hasDotDot(href, NH) && !hasDotDot(base, NB));   // "/seg/../" normalisation is outside this harness' reference
   XMLSize_t hl = 0; while (href[hl]) hl++;
   XMLSize_t bl = 0; while (base[bl]) bl++;
@@ -77,8 +76,9 @@ extern "C" void harness_dotdot(void) {
   VxMMFixed<32> mm; XMLPlatformUtils::fgMemoryManager = &mm;
   XMLCh s[ND + 1]; for (int i = 0; i < ND; i++) s[i] = nondet_u16(); s[ND] = 0;
   XMLSize_t n = 0; while (s[n]) n++;
-  VX_KNOWN(n == 0);                      // known finding C20/empty-path (see known_findings.json)
-  XMLCh* t = (XMLCh*)malloc((n + 1) * sizeof(XMLCh)); VX_ASSUME(t != 0);
+  XMLCh* t = 0;                                 // exactly sized block, concrete size on every path (a heap object of symbolic size explodes)
+  for (XMLSize_t k = 0; k <= ND; k++) if (n == k) t = (XMLCh*)malloc((k + 1) * sizeof(XMLCh));
+  VX_ASSUME(t != 0);
   for (XMLSize_t i = 0; i <= ND; i++) if (i <= n) t[i] = s[i];
   XMLPlatformUtils::removeDotDotSlash(t, &mm);
   XMLSize_t m = 0; while (m <= n && t[m]) m++;
